@@ -3,6 +3,8 @@ PROP = {
     "regen_files": ["GenGuards.v", "GenSigs.v", "GenSerde.v"],
     "num": 17,
     "runs": [{"tag": "c17", "bin": "c17"},
+             # optimised build of the same cases: no debug assertions, no overflow checks, inlined unsafe paths
+             {"tag": "c17rel", "bin": "c17", "profile": "release", "tiers": ["thorough"]},
              # caller programs compiled separately (harness/src/bin/gcall.rs): the operations used from code generic over the
              # lengths / element type with exactly the published impl bounds, and with plain method syntax (direct oracles)
              {"tag": "c17call", "bin": "gcall", "no_default_features": True, "args": ["--prop", "C17"], "model": False}],
